@@ -1,7 +1,7 @@
 (* C17_CheckK.v — the checker the cases files use: C17_Check.check_case, plus the comparison of the
    known-finding signature computed by the harness (Go twin, harness/cmd/c17/ref.go) with
    C17_Known: a disagreement counts as a broken tie. *)
-From Verif Require Export Base C17_Model C17_Check C17_Known.
+From Verif Require Export Base C17_Model C17_Check C17_Known C17_BackDef.
 Open Scope Z_scope.
 
 Definition kcode (k : kclass) : Z :=
@@ -10,14 +10,21 @@ Definition kcode (k : kclass) : Z :=
   | KStarReplace => 4 | KAfterOverwritten => 5 | KSelfSilent => 6 | KStaleRequest => 7
   end.
 
-(* class of the first in-domain call that puts the book into a known-finding class *)
-Fixpoint first_known (r : rstate) (i : N) (h : list step) : kclass :=
+(* class of the first in-domain call that puts the book into a known-finding class AFTER the history has
+   left the backward domain (C17_BackDef: F = targets named so far, bk = the calls so far are backward).
+   While the history is backward the whole property is proved on the model (c17_backward_domain_correct):
+   a failure there is never excused by a class, whatever the input-only class predicates say (stale_request
+   over-approximates on Register(a); Before(a).Register(b); Remove(b); Register(b)). *)
+Fixpoint first_known_from (F : list string) (bk : bool) (r : rstate) (i : N) (h : list step) : kclass :=
   match h with
   | [] => KNone
   | s :: h' =>
     let r' := ref_apply r i s in
-    if r_dom r' then (if is_known r' then class_of r' else first_known r' (N.succ i) h') else KNone
+    let bk' := bk && ok_step_b F s in
+    if r_dom r' then (if is_known r' && negb bk' then class_of r' else first_known_from (tgts s ++ F) bk' r' (N.succ i) h')
+    else KNone
   end.
+Definition first_known (r : rstate) (i : N) (h : list step) : kclass := first_known_from [] true r i h.
 
 (* processor.Get(name): the handler of the last callback of that name that is not a Remove marker *)
 Fixpoint get_model (cs : list cb) (n : string) : option N :=
